@@ -628,7 +628,10 @@ def run(rec, F, S):
                     c2 = re.sub(r"[()*&\s]", "", c)
                     return bool(b0 and b2) and c2 in ("%s==%s" % (b0, b2), "%s==%s" % (b2, b0))
                 okg = any(is_eq(n[1]) for n in conds)
-                v0, v2 = list(pops[0]["variants"])[0], list(pops[2]["variants"])[0]
+                # a window element bound by a bare identifier (`[set, Drop, get, ..] if guard(set, get)`) matches
+                # any instruction: the pattern then does not fix the store and the load to one variable kind
+                v0 = (list(pops[0]["variants"]) + ["<any instruction>"])[0]
+                v2 = (list(pops[2]["variants"]) + ["<any instruction>"])[0] if len(pops) > 2 else "<none>"
                 okt = v0.startswith("Set") and v2.startswith("Get") and v0[3:] == v2[3:] and list(pops[1]["variants"]) == ["Drop"]
                 rec.inst(R, "P5:%s same-slot guard and twin ops" % pname, ok=okg and okt, loc=loc)
                 if not (okg and okt):
